@@ -4,16 +4,16 @@
   Model: Bcder.Model.Octet (src/string/octet.rs), encoders of Bcder.Model.Encode; reference:
   Bcder.Spec.Tlv (`parseAll`, `parseUntilEoc`, `osSegments`, `osContent`, `osAccept`).
   Everything below is for ALL inputs: no bound on sizes, on the number of segments or on the
-  nesting depth.
+  nesting depth.  Decoding statements are on `runG0` (SliceSource semantics, Lemmas/G0.lean).
 
   1. Primitive form (`prim_accept`, `prim_accept_iff`, `prim_reject`, `prim_accept_spec`, `prim_views`):
      `OctetString::from_content` on a primitive content `c` followed by the framework's exhaustion
-     check, on the source `St (c ++ rest) (some c.length)` (`runG0`), returns `.prim c` with the
-     content consumed iff the mode is not CER or `c.length ≤ 1000` (= `Spec.osAccept`), and is a
-     content error otherwise; every view of `.prim c` is `c` (the segment iterator yields `[c]`, or
-     nothing if `c` is empty).  `cons_der_reject`: the constructed form is a content error in DER.
+     check (`fromContentChecked`), on the source `St (c ++ rest) (some c.length)`, returns `.prim c`
+     with the content consumed iff the mode is not CER or `c.length ≤ 1000` (= `Spec.osAccept`),
+     and is a content error otherwise; every view of `.prim c` is `c` (the segment iterator yields
+     `[c]`, or nothing if `c` is empty).  `cons_der_reject`: constructed is a content error in DER.
 
-  2. Views of a constructed value — main bundle `views_eq_concat`, also `octets_eq_osContent`,
+  2. Views of a constructed value — main bundle `views_eq_concat`; also `octets_eq_osContent`,
      `views_items`, `len_eq_sum`.
      `wfTrees f c = some ts` (decidable; `WfOS c` is its existential closure) says that the captured
      content octets `c` parse by the BER grammar, with fuel `f`, into the values `ts` — either
@@ -50,19 +50,34 @@
      value parses as one constructed value with the same kids provided the captured octets are a
      plain sequence of values.
 
-  5. `cons_accept_captures_consumed`: whenever the constructed form is accepted (BER or CER), the
-     value holds exactly the octets the source was advanced over (from C11).
+  5. Acceptance of the constructed form.
+     * CER, complete (`cons_cer_run`, `cons_cer_accept`, `cons_cer_accept_inv`, `cons_cer_accept_iff`,
+       `cons_cer_accept_iff_spec`, `cons_cer_accept_content`, `cons_cer_views`, `cons_cer_reject`,
+       `cerOK_iff_spec`): on the content octets `d` of an indefinite-length constructed value
+       (`cI`; source `St d none`, as everywhere inside CER), `from_content` + exhaustion check is
+       the closed function `cerAccept`; it succeeds exactly when `d` is primitive OCTET STRING
+       segments with shortest-form lengths, each of at most 1000 octets and only the last shorter
+       than 1000, followed by `00 00` — equivalently: the CER grammar reads `d` as values followed by
+       end-of-contents, `Spec.osAccept .cer` holds and `Spec.osContent` is defined — the value holds
+       exactly the segments' octets, the source is left behind the `00 00`, all views present
+       `osContent`; every failure is a content error or the loop budget (`fuel ≤` number of
+       segments), never a panic.  Uses the closed form of tag-selective reads (C09) and `capture_run0`.
+     * `run_framed`, `capture_run0`: a capture-free program under an open capture frame runs as
+       without it and the frame records exactly the octets advanced over; `Constructed::capture` in
+       closed form on `runG0`.
+     * BER and CER, on `runG`: `cons_accept_captures_consumed` — whenever the constructed form is
+       accepted the value holds exactly the octets the source was advanced over (from C11).
 
   -- not covered:
-  * WHICH constructed encodings `from_content (.cons c)` accepts (BER: nothing but OCTET STRING
-    values to any depth; CER: primitive segments of ≤ 1000 octets, only the last shorter), and
-    hence that every accepted constructed value satisfies `wfTrees`: this is the `skip_opt` state
-    machine / `take_opt_primitive_if` loop under `capture` — covered by the differential check and
-    by C10 / C11, not here.
+  * WHICH constructed encodings `from_content (.cons c)` accepts in BER (nothing but OCTET STRING
+    values, nested to any depth) and hence that every accepted BER value satisfies `wfTrees`: this
+    is the `skip_opt` state machine (C10, not importable when this was written) run under
+    `capture`; `capture_run0` here reduces it to C10's statement about `skip_opt` on a source
+    without frames.  Covered meanwhile by the differential check.
   * BER re-encoding of a captured content that includes the enclosing end-of-contents octets is
     NOT well-formed (`reencode_ber_d12`, known finding D12); hence `reencode_ber_wellformed_partial`.
   * the views on captured octets that are not well-formed (the iterator panics on them, see the
-    example at the end); sources other than `SliceSource` for part 1 (C07).
+    example at the end); sources other than `SliceSource` for the decoding parts (C07).
 -/
 import Bcder.Model.Octet
 import Bcder.Model.Encode
@@ -71,6 +86,9 @@ import Bcder.Lemmas.Header
 import Bcder.Props.C02
 import Bcder.Props.C17
 import Bcder.Props.C11
+import Bcder.Props.C09
+import Bcder.Props.C19
+import Bcder.Lemmas.NoCap
 namespace Bcder.Props.C16
 open Bcder Bcder.Spec Prog
 open Bcder.Props.C02 (St run_getLimit run_need run_takeAll run_limitedExhausted)
@@ -99,7 +117,7 @@ theorem fromContent_prim_run (fuel : Nat) (m : Mode) (c rest : Bytes) :
 /-- the closure as the framework runs it: followed by the exhaustion check of the content -/
 def fromContentChecked (fuel : Nat) (content : Content) : Prog (OS × Content) := do
   let r ← OS.fromContent fuel content
-  limitedExhausted
+  r.2.exhausted
   pure r
 
 /-- **C16 (acceptance, primitive form).**  `OctetString::from_content` on the primitive content `c`
@@ -123,7 +141,7 @@ theorem prim_accept (fuel : Nat) (m : Mode) (c rest : Bytes) :
       by_cases hm : m = .cer
       · exact Or.inr (Nat.le_of_not_lt fun h2 => h ⟨hm, h2⟩)
       · exact Or.inl hm
-    simp only [h, if_false, this, if_true, run_limitedExhausted, runG0_pure]
+    simp only [h, if_false, this, if_true, Content.exhausted, run_limitedExhausted, runG0_pure]
 
 theorem prim_accept_iff (fuel : Nat) (m : Mode) (c rest : Bytes) :
     runG0 (fromContentChecked fuel (.prim m)) (St (c ++ rest) (some c.length)) =
@@ -1275,6 +1293,1195 @@ theorem cons_accept_captures_consumed (fuel : Nat) (c : Cons) (g g' : G) (os : O
         (fun c => C11.uses_of_nocap (nocap_cerLoop fuel c false)) g bytes c' g1 hc
       exact ⟨k, h1, by rw [h2], h3, h4⟩
 
+/-! ## capture on `runG0` -/
+
+/-- the state `g'` (reached from data `d` without frames) seen under an open capture frame `f` -/
+def framed (f : Frame) (fs : List Frame) (d : Bytes) (g' : G0) : G0 :=
+  ⟨g'.data, g'.limit, { f with buf := f.buf ++ d.take (d.length - g'.data.length) } :: fs⟩
+
+theorem framed_same (f : Frame) (fs : List Frame) (d : Bytes) (l : Option Nat) :
+    framed f fs d ⟨d, l, []⟩ = ⟨d, l, f :: fs⟩ := by
+  simp [framed]
+
+theorem advance_framed (d : Bytes) (l : Option Nat) (f : Frame) (fs : List Frame) (n : Nat) :
+    G0.advance ⟨d, l, f :: fs⟩ n =
+      match G0.advance ⟨d, l, []⟩ n with
+      | .ok g' => .ok (framed f fs d g')
+      | .error e => .error e := by
+  unfold G0.advance
+  by_cases h1 : d.length < n
+  · simp [h1]
+  · simp only [h1, if_false]
+    have e : d.length - (d.length - n) = n := by omega
+    cases l with
+    | none => simp [framed, e]
+    | some l =>
+      by_cases h2 : l < n
+      · simp [h2]
+      · simp [h2, framed, e]
+
+theorem advance_unframed (d : Bytes) (l : Option Nat) (n : Nat) (g' : G0)
+    (h : G0.advance ⟨d, l, []⟩ n = .ok g') : g'.frames = [] ∧ ∃ k, k ≤ d.length ∧ g'.data = d.drop k := by
+  unfold G0.advance at h
+  by_cases h1 : d.length < n
+  · simp [h1] at h
+  · simp only [h1, if_false] at h
+    cases l with
+    | none => simp at h; subst h; exact ⟨rfl, n, by omega, rfl⟩
+    | some l =>
+      by_cases h2 : l < n
+      · simp [h2] at h
+      · simp [h2] at h; subst h; exact ⟨rfl, n, by omega, rfl⟩
+
+theorem step_framed (d : Bytes) (l : Option Nat) (f : Frame) (fs : List Frame) (o : Op)
+    (h1 : o ≠ .capBegin) (h2 : o ≠ .capEnd) :
+    stepG0 ⟨d, l, f :: fs⟩ o =
+      match stepG0 ⟨d, l, []⟩ o with
+      | .ok (r, g') => .ok (r, framed f fs d g')
+      | .error e => .error e := by
+  have hv : (⟨d, l, f :: fs⟩ : G0).view = (⟨d, l, []⟩ : G0).view := rfl
+  cases o with
+  | capBegin => exact absurd rfl h1
+  | capEnd => exact absurd rfl h2
+  | takeOptU8 =>
+    simp only [stepG0, hv, advance_framed]
+    cases (⟨d, l, []⟩ : G0).view with
+    | nil => simp [framed_same]
+    | cons b t =>
+      simp only
+      cases G0.advance ⟨d, l, []⟩ 1 <;> rfl
+  | peekAt i => simp [stepG0, hv, framed_same]
+  | peek2 => simp [stepG0, hv, framed_same]
+  | need n => simp [stepG0, hv, framed_same]
+  | takeN n =>
+    simp only [stepG0, hv, advance_framed]
+    split
+    · rfl
+    · cases G0.advance ⟨d, l, []⟩ n <;> rfl
+  | skipN n =>
+    simp only [stepG0, hv, advance_framed]
+    split
+    · rfl
+    · cases G0.advance ⟨d, l, []⟩ n <;> rfl
+  | sliceN n =>
+    simp only [stepG0, hv]
+    split
+    · rfl
+    · simp [framed_same]
+  | getLimit => simp [stepG0, framed_same]
+  | setLimit l' => simp [stepG0, framed]
+  | reqCapped n => simp [stepG0, hv, framed_same]
+
+theorem step_unframed (d : Bytes) (l : Option Nat) (o : Op) (h1 : o ≠ .capBegin) (h2 : o ≠ .capEnd)
+    (r : Resp) (g' : G0) (h : stepG0 ⟨d, l, []⟩ o = .ok (r, g')) :
+    g'.frames = [] ∧ ∃ k, k ≤ d.length ∧ g'.data = d.drop k := by
+  have same : ∀ r', (.ok (r', (⟨d, l, []⟩ : G0)) : Res (Resp × G0)) = .ok (r, g') →
+      g'.frames = [] ∧ ∃ k, k ≤ d.length ∧ g'.data = d.drop k := by
+    intro r' h; simp at h; obtain ⟨_, rfl⟩ := h; exact ⟨rfl, 0, by omega, rfl⟩
+  cases o with
+  | capBegin => exact absurd rfl h1
+  | capEnd => exact absurd rfl h2
+  | takeOptU8 =>
+    simp only [stepG0] at h
+    split at h
+    · exact same _ h
+    · split at h
+      · rename_i g1 ha; simp at h; obtain ⟨_, rfl⟩ := h; exact advance_unframed d l 1 _ ha
+      · simp at h
+  | peekAt i => exact same _ h
+  | peek2 => exact same _ h
+  | need n => exact same _ h
+  | takeN n =>
+    simp only [stepG0] at h
+    split at h
+    · simp at h
+    · split at h
+      · rename_i g1 ha; simp at h; obtain ⟨_, rfl⟩ := h; exact advance_unframed d l n _ ha
+      · simp at h
+  | skipN n =>
+    simp only [stepG0] at h
+    split at h
+    · simp at h
+    · split at h
+      · rename_i g1 ha; simp at h; obtain ⟨_, rfl⟩ := h; exact advance_unframed d l n _ ha
+      · simp at h
+  | sliceN n =>
+    simp only [stepG0] at h
+    split at h
+    · simp at h
+    · exact same _ h
+  | getLimit => exact same _ h
+  | setLimit l' => simp [stepG0] at h; obtain ⟨_, rfl⟩ := h; exact ⟨rfl, 0, by omega, rfl⟩
+  | reqCapped n => exact same _ h
+
+
+theorem framed_framed (f : Frame) (fs : List Frame) (d : Bytes) (k : Nat) (hk : k ≤ d.length) (g' : G0)
+    (k2 : Nat) (hk2 : k2 ≤ (d.drop k).length) (hd : g'.data = (d.drop k).drop k2) :
+    framed { f with buf := f.buf ++ d.take k } fs (d.drop k) g' = framed f fs d g' := by
+  simp only [List.length_drop] at hk2
+  have e1 : (d.drop k).length - g'.data.length = k2 := by
+    rw [hd]; simp only [List.length_drop]; omega
+  have e2 : d.length - g'.data.length = k + k2 := by
+    rw [hd]; simp only [List.length_drop]; omega
+  simp only [framed, e1, e2, List.take_add, List.append_assoc]
+
+/-- **a capture-free program under an open capture frame** does what it does without the frame; the
+    frame records exactly the octets advanced over.  (`runG0`; also: without frames the data is
+    only ever advanced.) -/
+theorem run_framed (p : Prog α) (hp : NoCap p) : ∀ (d : Bytes) (l : Option Nat) (f : Frame) (fs : List Frame),
+    (runG0 p ⟨d, l, f :: fs⟩ =
+      match runG0 p ⟨d, l, []⟩ with
+      | .ok (a, g') => .ok (a, framed f fs d g')
+      | .error e => .error e) ∧
+    (∀ a g', runG0 p ⟨d, l, []⟩ = .ok (a, g') → g'.frames = [] ∧ ∃ k, k ≤ d.length ∧ g'.data = d.drop k) := by
+  induction hp with
+  | ret a =>
+    intro d l f fs
+    refine ⟨by simp [runG0, framed_same], ?_⟩
+    intro a' g' h; simp [runG0] at h; obtain ⟨_, rfl⟩ := h; exact ⟨rfl, 0, by omega, rfl⟩
+  | fail e =>
+    intro d l f fs
+    exact ⟨rfl, fun a g' h => by simp [runG0] at h⟩
+  | op o k h1 h2 _ ih =>
+    intro d l f fs
+    simp only [runG0, step_framed d l f fs o h1 h2]
+    cases hs : stepG0 ⟨d, l, []⟩ o with
+    | error e => exact ⟨rfl, fun a g' h => by simp at h⟩
+    | ok rg =>
+      obtain ⟨r, g1⟩ := rg
+      obtain ⟨hf1, k1, hk1, hd1⟩ := step_unframed d l o h1 h2 r g1 hs
+      have hg1 : g1 = ⟨d.drop k1, g1.limit, []⟩ := by
+        cases g1 with
+        | mk dd ll ff => simp at hf1 hd1; subst hf1; subst hd1; rfl
+      have hfr : framed f fs d g1 = ⟨d.drop k1, g1.limit, { f with buf := f.buf ++ d.take k1 } :: fs⟩ := by
+        rw [hg1]; simp only [framed, List.length_drop]
+        have : d.length - (d.length - k1) = k1 := by omega
+        rw [this]
+      obtain ⟨ih1, ih2⟩ := ih r (d.drop k1) g1.limit { f with buf := f.buf ++ d.take k1 } fs
+      simp only
+      rw [hfr, ih1, ← hg1]
+      constructor
+      · cases hr : runG0 (k r) g1 with
+        | error e => rfl
+        | ok ag =>
+          obtain ⟨a, g'⟩ := ag
+          rw [hg1] at hr
+          obtain ⟨_, k2, hk2, hd2⟩ := ih2 a g' hr
+          simp only
+          rw [framed_framed f fs d k1 hk1 g' k2 hk2 hd2]
+      · intro a g' hr
+        rw [hg1] at hr
+        obtain ⟨hf2, k2, hk2, hd2⟩ := ih2 a g' hr
+        simp only [List.length_drop] at hk2
+        exact ⟨hf2, k1 + k2, by omega, by rw [hd2, List.drop_drop]⟩
+
+/-- **`Constructed::capture` on a source without open capture**, for a capture-free closure:
+    the closure runs as if there were no capture; the octets it advanced over are returned, the
+    limit is the outer limit reduced by their number. -/
+theorem capture_run0 (c : Cons) (op : Cons → Prog Cons) (hop : ∀ c, NoCap (op c)) (d : Bytes) (l : Option Nat) :
+    runG0 (capture c op) (St d l) =
+      match runG0 (op c) (St d l) with
+      | .error e => .error e
+      | .ok (c', g') =>
+        let k := d.length - g'.data.length
+        match l with
+        | some lim =>
+          if lim < k then .error (.panic "advanced past end of limit")
+          else .ok ((d.take k, { c with state := c'.state }), St g'.data (some (lim - k)))
+        | none => .ok ((d.take k, { c with state := c'.state }), St g'.data none) := by
+  unfold capture
+  have hb : runG0 capBegin (St d l) = .ok ((), ⟨d, l, [{ buf := [], outer := l }]⟩) := by
+    simp [capBegin, runG0, stepG0]
+  simp only [runG0_bind, hb]
+  obtain ⟨h1, h2⟩ := run_framed (op c) (hop c) d l { buf := [], outer := l } []
+  rw [h1]
+  cases hr : runG0 (op c) ⟨d, l, []⟩ with
+  | error e => rfl
+  | ok cg =>
+    obtain ⟨c', g'⟩ := cg
+    obtain ⟨hf, k, hk, hd⟩ := h2 c' g' hr
+    have hlen : d.length - g'.data.length = k := by rw [hd]; simp only [List.length_drop]; omega
+    have hlt : (d.take k).length = k := by simp [List.length_take]; omega
+    simp only [framed, hlen, List.nil_append]
+    cases l with
+    | none => simp [capEnd, runG0, stepG0]
+    | some lim =>
+      by_cases hl : lim < k
+      · simp [capEnd, runG0, stepG0, hlt, hl]
+      · simp [capEnd, runG0, stepG0, hlt, hl]
+
+
+/-! ## C16, acceptance of the constructed form in CER -/
+
+/-- the closure of `take_constructed_cer` -/
+def cerClosure (short : Bool) : Mode → Prog (Bool × Mode) := fun m => do
+  let rem ← Prim.remaining
+  if rem > 1000 then contentErr
+  else if short then contentErr
+  else
+    Prim.skipAll
+    pure (decide (rem < 1000), m)
+
+theorem cerLoop_succ (c : Cons) (fuel : Nat) (short : Bool) :
+    OS.cerLoop c (fuel + 1) short = (do
+      let (r, c') ← takeOptPrimitiveIf c Tag.OCTET_STRING (cerClosure short)
+      match r with
+      | some short' => OS.cerLoop c' fuel short'
+      | none => pure c') := rfl
+
+theorem cerClosure_run (short : Bool) (m : Mode) (data : Bytes) (len : Nat) :
+    runG0 (asPrimitive (cerClosure short) (.prim m)) (St data (some len)) =
+      if len > 1000 ∨ short = true ∨ data.length < len then .error .content
+      else .ok ((decide (len < 1000), .prim m), St (data.drop len) (some 0)) := by
+  simp only [asPrimitive, cerClosure, runG0_bind, run_remaining]
+  by_cases h1 : len > 1000
+  · simp [h1]
+  · by_cases h2 : short = true
+    · simp [h1, h2]
+    · simp only [h1, h2, if_false, false_or, Bool.false_eq_true, runG0_bind, C19.run_skipAll]
+      by_cases h3 : len ≤ data.length
+      · have : ¬ data.length < len := by omega
+        simp [h3, this]
+      · have : data.length < len := by omega
+        simp [h3, this]
+
+/-- the constructed value being read in CER: indefinite -/
+abbrev cI : Cons := ⟨.indefinite, .cer⟩
+
+/-- the next segment at the front of `d`, by the reference header readers: `none` = no OCTET STRING
+    identifier there (end of the segments); `some (segment, is short, what follows)` -/
+def cerHead (short : Bool) (d : Bytes) : Res (Option (Bytes × Bool × Bytes)) :=
+  if d = [] then .ok none
+  else match readIdent d with
+    | none => .error .content
+    | some (id, k) =>
+      if id.cls = 0 ∧ id.num = 4 then
+        match readLen false (d.drop k) with
+        | some (some n, kl) =>
+          if id.constructed = true ∨ n > 1000 ∨ short = true ∨ (d.drop (k + kl)).length < n then .error .content
+          else .ok (some ((d.drop (k + kl)).take n, decide (n < 1000), d.drop (k + kl + n)))
+        | _ => .error .content
+      else .ok none
+
+theorem cer_round (short : Bool) (d : Bytes) :
+    runG0 (takeOptPrimitiveIf cI Tag.OCTET_STRING (cerClosure short)) (St d none) =
+      match cerHead short d with
+      | .error e => .error e
+      | .ok none => .ok ((none, cI), St d none)
+      | .ok (some (_, sh, rest)) => .ok ((some sh, cI), St rest none) := by
+  unfold takeOptPrimitiveIf
+  rw [← tagOf_os, C09.pnvE_eq cI 0 4 (by omega) (by omega) _ _ rfl]
+  unfold C09.pnvE cerHead
+  have hv : (St d none).view = d := rfl
+  simp only [hv, show (cI.state = CState.done) = False from by simp, show (cI.state = CState.definite) = False from by simp,
+    false_and, if_false]
+  by_cases hd : d = []
+  · simp [hd]
+  · simp only [hd, if_false]
+    cases hr : readIdent d with
+    | none => rfl
+    | some r =>
+      obtain ⟨id, k⟩ := r
+      obtain ⟨hc, hn, hk1, hk, _⟩ := C12.readIdent_bounds _ _ _ hr
+      simp only
+      by_cases hid : id.cls = 0 ∧ id.num = 4
+      · simp only [hid, and_self, if_true]
+        have hv1 : ((St d none).adv k).view = d.drop k := rfl
+        have hb : cI.mode.isBer = false := rfl
+        rw [hv1, hb]
+        cases hl : readLen false (d.drop k) with
+        | none => rfl
+        | some r2 =>
+          obtain ⟨len?, kl⟩ := r2
+          have hne : isEocIdent id = false := by simp [isEocIdent, hid.2]
+          have hadv : ((St d none).adv k).adv kl = St (d.drop (k + kl)) none := by
+            simp [G0.adv, List.drop_drop]
+          simp only [hadv]
+          cases len? with
+          | none =>
+            simp only [C02.bodyF, hne, Bool.false_eq_true, if_false]
+            by_cases hcn : id.constructed = true
+            · simp [hcn, asPrimitive]
+            · simp [hcn]
+          | some n =>
+            simp only [C02.bodyF, hne, Bool.false_eq_true, if_false]
+            by_cases hcn : id.constructed = true
+            · simp [hcn]
+            · have hcn' : id.constructed = false := by simpa using hcn
+              simp only [hcn', Bool.false_and, Bool.false_eq_true, if_false, cerClosure_run, false_or]
+              by_cases hbad : n > 1000 ∨ short = true ∨ (d.drop (k + kl)).length < n
+              · rw [if_pos hbad, if_pos hbad]
+              · rw [if_neg hbad, if_neg hbad]
+                simp [Content.exhausted, run_limitedExhausted, List.drop_drop]
+      · simp [hid]
+
+/-- the segments at the front of `d`: reference scanner over the header readers -/
+def cerScan : Nat → Bool → Bytes → Res (List Bytes × Bytes)
+  | 0, _, _ => .error .fuel
+  | fuel + 1, short, d =>
+    match cerHead short d with
+    | .error e => .error e
+    | .ok none => .ok ([], d)
+    | .ok (some (seg, sh, rest)) =>
+      match cerScan fuel sh rest with
+      | .ok (segs, r) => .ok (seg :: segs, r)
+      | .error e => .error e
+
+theorem cerLoop_run : ∀ (fuel : Nat) (short : Bool) (d : Bytes),
+    runG0 (OS.cerLoop cI fuel short) (St d none) =
+      match cerScan fuel short d with
+      | .ok (_, rest) => .ok (cI, St rest none)
+      | .error e => .error e := by
+  intro fuel
+  induction fuel with
+  | zero => intro short d; rfl
+  | succ fuel ih =>
+    intro short d
+    rw [cerLoop_succ]
+    simp only [runG0_bind, cer_round, cerScan]
+    cases hh : cerHead short d with
+    | error e => rfl
+    | ok r =>
+      cases r with
+      | none => rfl
+      | some x =>
+        obtain ⟨seg, sh, rest⟩ := x
+        simp only [ih]
+        cases cerScan fuel sh rest with
+        | error e => rfl
+        | ok y => rfl
+
+theorem cerHead_suffix (short : Bool) (d seg : Bytes) (sh : Bool) (rest : Bytes)
+    (h : cerHead short d = .ok (some (seg, sh, rest))) :
+    ∃ k, 2 ≤ k ∧ k ≤ d.length ∧ rest = d.drop k := by
+  unfold cerHead at h
+  split at h
+  · simp at h
+  · cases hr : readIdent d with
+    | none => simp [hr] at h
+    | some r =>
+      obtain ⟨id, k⟩ := r
+      simp only [hr] at h
+      split at h
+      · cases hl : readLen false (d.drop k) with
+        | none => simp [hl] at h
+        | some r2 =>
+          obtain ⟨len?, kl⟩ := r2
+          obtain ⟨_, _, hk1, hk, _⟩ := C12.readIdent_bounds _ _ _ hr
+          obtain ⟨hkl1, hkl⟩ := readLen_bound _ _ _ _ hl
+          simp only [List.length_drop] at hkl
+          cases len? with
+          | none => simp [hl] at h
+          | some n =>
+            simp only [hl] at h
+            split at h
+            · simp at h
+            · rename_i hbad
+              simp only [Except.ok.injEq, Option.some.injEq, Prod.mk.injEq] at h
+              simp only [List.length_drop] at hbad
+              exact ⟨k + kl + n, by omega, by omega, h.2.2.symm⟩
+      · simp at h
+
+theorem cerScan_suffix : ∀ (fuel : Nat) (short : Bool) (d : Bytes) (segs : List Bytes) (rest : Bytes),
+    cerScan fuel short d = .ok (segs, rest) → ∃ k, k ≤ d.length ∧ rest = d.drop k := by
+  intro fuel
+  induction fuel with
+  | zero => intro short d segs rest h; simp [cerScan] at h
+  | succ fuel ih =>
+    intro short d segs rest h
+    simp only [cerScan] at h
+    cases hh : cerHead short d with
+    | error e => simp [hh] at h
+    | ok r =>
+      cases r with
+      | none => simp [hh] at h; exact ⟨0, by omega, by simp [h.2]⟩
+      | some x =>
+        obtain ⟨seg, sh, rest1⟩ := x
+        simp only [hh] at h
+        obtain ⟨k1, _, hk1, hr1⟩ := cerHead_suffix short d seg sh rest1 hh
+        cases hs : cerScan fuel sh rest1 with
+        | error e => simp [hs] at h
+        | ok y =>
+          obtain ⟨segs', r⟩ := y
+          simp only [hs, Except.ok.injEq, Prod.mk.injEq] at h
+          obtain ⟨k2, hk2, hr2⟩ := ih sh rest1 segs' r hs
+          subst hr1
+          simp only [List.length_drop] at hk2
+          exact ⟨k1 + k2, by omega, by rw [← h.2, hr2, List.drop_drop]⟩
+
+/-- the identifier reader: short form, or a number of at least 31 -/
+theorem readIdent_shape (b : UInt8) (t : Bytes) (id : Ident) (k : Nat) (h : readIdent (b :: t) = some (id, k)) :
+    (b.toNat % 32 ≠ 31 ∧ id = ⟨b.toNat / 64, b.toNat / 32 % 2 == 1, b.toNat % 32⟩ ∧ k = 1) ∨ 31 ≤ id.num := by
+  simp only [readIdent] at h
+  split at h
+  · rename_i h0
+    simp only [Option.some.injEq, Prod.mk.injEq] at h
+    exact Or.inl ⟨by simpa using h0, h.1.symm, h.2.symm⟩
+  · right
+    match t, h with
+    | [], h => simp at h
+    | d1 :: r1, h =>
+      simp only at h
+      split at h
+      · split at h
+        · simp at h; obtain ⟨h1, _⟩ := h; subst h1; simp; omega
+        · simp at h
+      · split at h
+        · simp at h
+        · rename_i h1 h2
+          have h2' : d1.toNat ≠ 128 := by simpa using h2
+          have hd1 := byte_lt_256 d1
+          match r1, h with
+          | [], h => simp at h
+          | d2 :: r2, h =>
+            simp only at h
+            split at h
+            · simp at h; obtain ⟨h1, _⟩ := h; subst h1; simp; omega
+            · match r2, h with
+              | [], h => simp at h
+              | d3 :: r3, h =>
+                simp only at h
+                split at h
+                · simp at h; obtain ⟨h1, _⟩ := h; subst h1; simp; omega
+                · simp at h
+
+/-- an identifier of a primitive OCTET STRING is the octet `04` -/
+theorem readIdent_os_inv (d : Bytes) (id : Ident) (k : Nat) (h : readIdent d = some (id, k))
+    (h0 : id.cls = 0) (h4 : id.num = 4) (hc : id.constructed = false) : ∃ t, d = 0x04 :: t ∧ k = 1 := by
+  cases d with
+  | nil => simp [readIdent] at h
+  | cons b t =>
+    rcases readIdent_shape b t id k h with ⟨_, hid, hk⟩ | hge
+    · subst hid
+      simp only at h0 h4 hc
+      have hb : b.toNat = 4 := by
+        have : b.toNat / 32 % 2 ≠ 1 := by simpa using hc
+        have := byte_lt_256 b
+        omega
+      have : b = 4 := UInt8.toNat_inj.mp hb
+      exact ⟨t, by rw [this], hk⟩
+    · omega
+
+/-- non-BER length octets are the shortest form of their value -/
+theorem readLen_false_inv (d : Bytes) (n kl : Nat) (h : readLen false d = some (some n, kl)) :
+    ∃ t, d = lenOctets n ++ t ∧ kl = (lenOctets n).length := by
+  cases d with
+  | nil => simp [readLen] at h
+  | cons b rest =>
+    simp only [readLen] at h
+    split at h
+    · rename_i h0
+      simp only [Option.some.injEq, Prod.mk.injEq] at h
+      obtain ⟨hn, hk⟩ := h
+      subst hn
+      have : lenOctets b.toNat = [b] := by
+        rw [C13.lenOctets_1 _ h0]
+        congr 1
+        exact UInt8.toNat_inj.mp (by simp)
+      exact ⟨rest, by rw [this]; rfl, by rw [this]; exact hk.symm⟩
+    · split at h
+      · simp at h
+      · split at h
+        · simp at h
+        · split at h
+          · simp at h
+          · simp only [Bool.false_eq_true, if_false] at h
+            split at h
+            · rename_i hmin
+              simp only [Option.some.injEq, Prod.mk.injEq] at h
+              obtain ⟨hn, hk⟩ := h
+              subst hn
+              refine ⟨rest.drop (b.toNat - 128), ?_, ?_⟩
+              · rw [hmin]; simp [List.take_append_drop]
+              · rw [hmin]; simp [List.length_take]; omega
+            · simp at h
+
+/-- `Constructed::exhausted` of an indefinite value in CER: exactly the octets `00 00` -/
+theorem exhausted_indef_run (rest : Bytes) :
+    runG0 cI.exhausted (St rest none) =
+      if rest.take 2 = [0, 0] then .ok ((), St (rest.drop 2) none) else .error .content := by
+  have ht : ∀ r : Bytes, runG0 Tag.takeFrom (St r none) = match readIdent r with
+      | none => .error .content
+      | some (id, k) => .ok ((C12.tagOf id.cls id.num, id.constructed), St (r.drop k) none) :=
+    fun r => tag_takeFrom0 (St r none) rfl
+  have hlen : ∀ r : Bytes, runG0 (Length.takeFrom .cer) (St r none) = match readLen false r with
+      | none => .error .content
+      | some (some n, k) => .ok (.definite n, St (r.drop k) none)
+      | some (none, k) => .ok (.indefinite, St (r.drop k) none) :=
+    fun r => length_takeFrom0 .cer (St r none) rfl
+  unfold Cons.exhausted
+  simp only [runG0_bind, ht]
+  cases rest with
+  | nil => simp [readIdent]
+  | cons b t =>
+    by_cases hb : b = 0
+    · subst hb
+      have hi : readIdent ((0 : UInt8) :: t) = some (⟨0, false, 0⟩, 1) := by simp [readIdent]
+      simp only [hi, tagOf_eoc, bne_self_eq_false, Bool.or_false, Bool.false_eq_true, if_false, runG0_bind,
+        List.drop_succ_cons, List.drop_zero, hlen]
+      cases t with
+      | nil => simp [readLen]
+      | cons b2 t' =>
+        by_cases hb2 : b2 = 0
+        · subst hb2
+          have hl : readLen false ((0 : UInt8) :: t') = some (some 0, 1) := by simp [readLen]
+          simp [hl, Length.isZero]
+        · have hne : ¬ List.take 2 ((0 : UInt8) :: b2 :: t') = [0, 0] := by simp [hb2]
+          rw [if_neg hne]
+          cases hl : readLen false (b2 :: t') with
+          | none => rfl
+          | some r =>
+            obtain ⟨x, kl⟩ := r
+            cases x with
+            | none => simp [Length.isZero]
+            | some n =>
+              cases n with
+              | zero =>
+                obtain ⟨t2, ht2, _⟩ := readLen_false_inv _ _ _ hl
+                have : lenOctets 0 = [0] := by rfl
+                rw [this] at ht2
+                simp at ht2
+                exact absurd ht2.1 hb2
+              | succ n => simp [Length.isZero]
+    · have hne : ¬ List.take 2 (b :: t) = [0, 0] := by
+        cases t <;> simp [hb]
+      rw [if_neg hne]
+      cases hr : readIdent (b :: t) with
+      | none => rfl
+      | some r =>
+        obtain ⟨id, k⟩ := r
+        obtain ⟨hc, hn, _⟩ := C12.readIdent_bounds _ _ _ hr
+        have hbad : (C12.tagOf id.cls id.num != Tag.END_OF_VALUE || id.constructed) = true := by
+          by_cases he : isEocIdent id = true
+          · rcases readIdent_shape b t id k hr with ⟨_, hid, _⟩ | hge
+            · subst hid
+              simp only [isEocIdent, Bool.and_eq_true, beq_iff_eq] at he
+              have hbb := byte_lt_256 b
+              have hb32 : b.toNat = 32 := by
+                have : b.toNat ≠ 0 := fun h => hb (UInt8.toNat_inj.mp h)
+                omega
+              simp [hb32]
+            · simp only [isEocIdent, Bool.and_eq_true, beq_iff_eq] at he
+              omega
+          · have : ¬ C12.tagOf id.cls id.num = Tag.END_OF_VALUE := fun h => he ((C02.tagOf_eoc id hc hn).mp h)
+            simp [this]
+        simp only [hbad, if_true, runG0_contentErr]
+/-- what `from_content` + exhaustion check must give on the content octets `d` of an
+    indefinite-length constructed OCTET STRING in CER -/
+def cerAccept (fuel : Nat) (d : Bytes) : Res ((OS × Content) × G0) :=
+  match cerScan fuel false d with
+  | .error e => .error e
+  | .ok (_, rest) =>
+    if rest.take 2 = [0, 0] then
+      .ok ((.cons (d.take (d.length - rest.length)), .cons cI), St (rest.drop 2) none)
+    else .error .content
+
+/-- **closed form, CER constructed**: on every input -/
+theorem cons_cer_run (fuel : Nat) (d : Bytes) :
+    runG0 (fromContentChecked fuel (.cons cI)) (St d none) = cerAccept fuel d := by
+  unfold fromContentChecked cerAccept
+  have hfc : OS.fromContent fuel (.cons cI) =
+      (do let (os, c') ← OS.takeConstructedCer cI fuel; pure (os, Content.cons c')) := rfl
+  rw [hfc]
+  unfold OS.takeConstructedCer
+  simp only [runG0_bind, capture_run0 cI _ (fun c => nocap_cerLoop fuel c false), cerLoop_run]
+  cases hs : cerScan fuel false d with
+  | error e => rfl
+  | ok r =>
+    obtain ⟨segs, rest⟩ := r
+    simp only [runG0_pure, Content.exhausted]
+    have : ({ cI with state := cI.state } : Cons) = cI := rfl
+    rw [this, exhausted_indef_run]
+    by_cases h2 : rest.take 2 = [0, 0] <;> simp [h2]
+
+/-- the CER encoding of one primitive segment -/
+def cerSegEnc (s : Bytes) : Bytes := 0x04 :: (lenOctets s.length ++ s)
+/-- … of a sequence of segments -/
+def cerEnc (segs : List Bytes) : Bytes := (segs.map cerSegEnc).flatten
+
+/-- X.690 9.2 on the segments (given whether a short one came before): each at most 1000 octets,
+    and nothing may follow a segment shorter than 1000 -/
+def cerOK : Bool → List Bytes → Bool
+  | _, [] => true
+  | short, s :: ss => !short && decide (s.length ≤ 1000) && cerOK (decide (s.length < 1000)) ss
+
+theorem cerHead_enc (s tail : Bytes) (hs : s.length ≤ 1000) :
+    cerHead false (cerSegEnc s ++ tail) = .ok (some (s, decide (s.length < 1000), tail)) := by
+  have hsz : s.length < 2 ^ 32 := by omega
+  have hl := readLen_lenOctets false s.length (s ++ tail) hsz
+  have hi : readIdent (cerSegEnc s ++ tail) = some (⟨0, false, 4⟩, 1) := by simp [cerSegEnc, readIdent]
+  have hd : (cerSegEnc s ++ tail).drop 1 = lenOctets s.length ++ (s ++ tail) := by simp [cerSegEnc]
+  have hd2 : (cerSegEnc s ++ tail).drop (1 + (lenOctets s.length).length) = s ++ tail := by
+    rw [Nat.add_comm]
+    simp only [cerSegEnc, List.cons_append, List.drop_succ_cons, List.append_assoc]
+    exact List.drop_left
+  have hd3 : (cerSegEnc s ++ tail).drop (1 + (lenOctets s.length).length + s.length) = tail := by
+    rw [← List.drop_drop, hd2]; exact List.drop_left
+  have hne : ¬ cerSegEnc s ++ tail = [] := by simp [cerSegEnc]
+  have hbad : ¬ ((⟨0, false, 4⟩ : Ident).constructed = true ∨ s.length > 1000 ∨ false = true ∨ (s ++ tail).length < s.length) := by
+    simp only [List.length_append]
+    rintro (h | h | h | h)
+    · cases h
+    · omega
+    · cases h
+    · omega
+  simp only [cerHead, hne, if_false, hi, and_self, if_true, hd, hl, hd2, hd3, hbad, List.take_left']
+
+theorem cerHead_inv (short : Bool) (d seg : Bytes) (sh : Bool) (rest : Bytes)
+    (h : cerHead short d = .ok (some (seg, sh, rest))) :
+    short = false ∧ seg.length ≤ 1000 ∧ sh = decide (seg.length < 1000) ∧ d = cerSegEnc seg ++ rest := by
+  unfold cerHead at h
+  split at h
+  · simp at h
+  · cases hr : readIdent d with
+    | none => simp [hr] at h
+    | some r =>
+      obtain ⟨id, k⟩ := r
+      simp only [hr] at h
+      split at h
+      · rename_i hid
+        cases hl : readLen false (d.drop k) with
+        | none => simp [hl] at h
+        | some r2 =>
+          obtain ⟨len?, kl⟩ := r2
+          cases len? with
+          | none => simp [hl] at h
+          | some n =>
+            simp only [hl] at h
+            split at h
+            · simp at h
+            · rename_i hbad
+              simp only [Except.ok.injEq, Option.some.injEq, Prod.mk.injEq] at h
+              obtain ⟨h1, h2, h3⟩ := h
+              have hcn : id.constructed = false := by
+                cases hc : id.constructed with
+                | false => rfl
+                | true => exact absurd (Or.inl hc) hbad
+              have hn1 : ¬ n > 1000 := fun hh => hbad (Or.inr (Or.inl hh))
+              have hsh : short = false := by
+                cases hc : short with
+                | false => rfl
+                | true => exact absurd (Or.inr (Or.inr (Or.inl hc))) hbad
+              have hn2 : ¬ (d.drop (k + kl)).length < n := fun hh => hbad (Or.inr (Or.inr (Or.inr hh)))
+              obtain ⟨t, ht, hk⟩ := readIdent_os_inv d id k hr hid.1 hid.2 hcn
+              subst hk
+              obtain ⟨t2, ht2, hkl⟩ := readLen_false_inv _ _ _ hl
+              rw [ht] at ht2
+              simp only [List.drop_succ_cons, List.drop_zero] at ht2
+              have hd2 : d.drop (1 + kl) = t2 := by
+                rw [ht, ht2, Nat.add_comm, hkl]
+                simp only [List.drop_succ_cons]
+                exact List.drop_left
+              rw [hd2] at h1 hn2
+              have hd3 : d.drop (1 + kl + n) = t2.drop n := by rw [← List.drop_drop, hd2]
+              rw [hd3] at h3
+              have hlen : seg.length = n := by rw [← h1]; simp [List.length_take]; omega
+              refine ⟨hsh, by omega, by rw [← h2, hlen], ?_⟩
+              rw [ht, ht2, cerSegEnc, hlen, ← h1, ← h3]
+              simp [List.take_append_drop]
+      · simp at h
+
+
+theorem cerEnc_cons (s : Bytes) (ss : List Bytes) : cerEnc (s :: ss) = cerSegEnc s ++ cerEnc ss := by
+  simp [cerEnc]
+
+/-- nothing but an OCTET STRING identifier continues the segments; in particular not `00 00` -/
+theorem cerHead_eoc (sh : Bool) (tail : Bytes) (h : tail.take 2 = [0, 0]) : cerHead sh tail = .ok none := by
+  match tail, h with
+  | b :: b2 :: t, h =>
+    simp only [List.take_succ_cons, List.take_zero, List.cons.injEq, and_true] at h
+    obtain ⟨rfl, rfl⟩ := h
+    simp [cerHead, readIdent]
+
+theorem cerScan_enc : ∀ (segs : List Bytes) (short : Bool) (fuel : Nat) (tail : Bytes),
+    cerOK short segs = true → segs.length < fuel → (∀ sh, cerHead sh tail = .ok none) →
+    cerScan fuel short (cerEnc segs ++ tail) = .ok (segs, tail) := by
+  intro segs
+  induction segs with
+  | nil =>
+    intro short fuel tail _ hf ht
+    cases fuel with
+    | zero => simp at hf
+    | succ fuel => simp [cerScan, cerEnc, ht]
+  | cons s ss ih =>
+    intro short fuel tail hok hf ht
+    cases fuel with
+    | zero => simp at hf
+    | succ fuel =>
+      simp only [cerOK, Bool.and_eq_true, Bool.not_eq_true', decide_eq_true_eq] at hok
+      obtain ⟨⟨hsh, hs⟩, hrest⟩ := hok
+      subst hsh
+      simp only [List.length_cons] at hf
+      rw [cerEnc_cons, List.append_assoc]
+      simp only [cerScan, cerHead_enc s _ hs, ih _ fuel tail hrest (by omega) ht]
+
+theorem cerScan_inv : ∀ (fuel : Nat) (short : Bool) (d : Bytes) (segs : List Bytes) (rest : Bytes),
+    cerScan fuel short d = .ok (segs, rest) →
+      cerOK short segs = true ∧ segs.length < fuel ∧ d = cerEnc segs ++ rest := by
+  intro fuel
+  induction fuel with
+  | zero => intro short d segs rest h; simp [cerScan] at h
+  | succ fuel ih =>
+    intro short d segs rest h
+    simp only [cerScan] at h
+    cases hh : cerHead short d with
+    | error e => simp [hh] at h
+    | ok r =>
+      cases r with
+      | none =>
+        simp only [hh, Except.ok.injEq, Prod.mk.injEq] at h
+        obtain ⟨rfl, rfl⟩ := h
+        exact ⟨rfl, by simp, by simp [cerEnc]⟩
+      | some x =>
+        obtain ⟨seg, sh, rest1⟩ := x
+        simp only [hh] at h
+        obtain ⟨i1, i2, i3, i4⟩ := cerHead_inv short d seg sh rest1 hh
+        cases hs : cerScan fuel sh rest1 with
+        | error e => simp [hs] at h
+        | ok y =>
+          obtain ⟨segs', r⟩ := y
+          simp only [hs, Except.ok.injEq, Prod.mk.injEq] at h
+          obtain ⟨rfl, rfl⟩ := h
+          obtain ⟨j1, j2, j3⟩ := ih sh rest1 segs' r hs
+          refine ⟨?_, by simp only [List.length_cons]; omega, ?_⟩
+          · rw [i3] at j1
+            simp [cerOK, i1, i2, j1]
+          · rw [i4, j3, cerEnc_cons, List.append_assoc]
+
+/-- **C16 (acceptance, constructed form in CER — accepted).**  Content octets that are primitive
+    OCTET STRING segments in shortest-length form, each of at most 1000 octets and only the last
+    shorter than 1000, followed by the end-of-contents octets, are accepted (with fuel for the loop:
+    more than the number of segments); the value holds exactly the segments' encodings and the
+    source is left behind the end-of-contents octets. -/
+theorem cons_cer_accept (fuel : Nat) (segs : List Bytes) (rest : Bytes)
+    (hok : cerOK false segs = true) (hf : segs.length < fuel) :
+    runG0 (fromContentChecked fuel (.cons cI)) (St (cerEnc segs ++ ([0, 0] ++ rest)) none) =
+      .ok ((.cons (cerEnc segs), .cons cI), St rest none) := by
+  rw [cons_cer_run]
+  unfold cerAccept
+  rw [cerScan_enc segs false fuel ([0, 0] ++ rest) hok hf (fun sh => cerHead_eoc sh _ rfl)]
+  have e : (cerEnc segs ++ ([0, 0] ++ rest)).length - ([0, 0] ++ rest : Bytes).length = (cerEnc segs).length := by
+    simp only [List.length_append]; omega
+  simp only [e, List.take_left']
+  simp
+
+/-- **C16 (acceptance, constructed form in CER — only those).**  Whatever is accepted has that
+    shape; everything else is an error. -/
+theorem cons_cer_accept_inv (fuel : Nat) (d : Bytes) (os : OS) (ct : Content) (g' : G0)
+    (h : runG0 (fromContentChecked fuel (.cons cI)) (St d none) = .ok ((os, ct), g')) :
+    ∃ segs rest, cerOK false segs = true ∧ segs.length < fuel ∧ d = cerEnc segs ++ ([0, 0] ++ rest) ∧
+      os = .cons (cerEnc segs) ∧ ct = .cons cI ∧ g' = St rest none := by
+  rw [cons_cer_run] at h
+  unfold cerAccept at h
+  cases hs : cerScan fuel false d with
+  | error e => simp [hs] at h
+  | ok r =>
+    obtain ⟨segs, rest1⟩ := r
+    simp only [hs] at h
+    obtain ⟨j1, j2, j3⟩ := cerScan_inv fuel false d segs rest1 hs
+    split at h
+    · rename_i h2
+      simp only [Except.ok.injEq, Prod.mk.injEq] at h
+      obtain ⟨⟨rfl, rfl⟩, rfl⟩ := h
+      have hr : rest1 = [0, 0] ++ rest1.drop 2 := by rw [← h2, List.take_append_drop]
+      refine ⟨segs, rest1.drop 2, j1, j2, by rw [← hr]; exact j3, ?_, rfl, rfl⟩
+      have e : d.length - rest1.length = (cerEnc segs).length := by
+        rw [j3]; simp only [List.length_append]; omega
+      rw [e, j3, List.take_left' rfl]
+    · simp at h
+
+/-- acceptance in CER as an equivalence on the content octets -/
+theorem cons_cer_accept_iff (fuel : Nat) (d : Bytes) :
+    (∃ r, runG0 (fromContentChecked fuel (.cons cI)) (St d none) = .ok r) ↔
+      ∃ segs rest, cerOK false segs = true ∧ segs.length < fuel ∧ d = cerEnc segs ++ ([0, 0] ++ rest) := by
+  constructor
+  · rintro ⟨⟨⟨os, ct⟩, g'⟩, h⟩
+    obtain ⟨segs, rest, h1, h2, h3, _⟩ := cons_cer_accept_inv fuel d os ct g' h
+    exact ⟨segs, rest, h1, h2, h3⟩
+  · rintro ⟨segs, rest, h1, h2, rfl⟩
+    exact ⟨_, cons_cer_accept fuel segs rest h1 h2⟩
+
+/-- rejection is never a panic: a content error, or the loop budget ran out -/
+theorem cons_cer_reject (fuel : Nat) (d : Bytes) (e : Err)
+    (h : runG0 (fromContentChecked fuel (.cons cI)) (St d none) = .error e) : e = .content ∨ e = .fuel := by
+  rw [cons_cer_run] at h
+  unfold cerAccept at h
+  have key : ∀ (fuel : Nat) (short : Bool) (d : Bytes) (e : Err), cerScan fuel short d = .error e →
+      e = .content ∨ e = .fuel := by
+    intro fuel
+    induction fuel with
+    | zero => intro short d e h; simp [cerScan] at h; exact Or.inr h.symm
+    | succ fuel ih =>
+      intro short d e h
+      simp only [cerScan] at h
+      cases hh : cerHead short d with
+      | error e' =>
+        simp only [hh, Except.error.injEq] at h
+        subst h
+        left
+        unfold cerHead at hh
+        repeat' split at hh
+        all_goals first | (simp at hh; done) | (simp only [Except.error.injEq] at hh; exact hh.symm)
+      | ok r =>
+        cases r with
+        | none => simp [hh] at h
+        | some x =>
+          obtain ⟨seg, sh, rest1⟩ := x
+          simp only [hh] at h
+          cases hs : cerScan fuel sh rest1 with
+          | error e' => simp only [hs, Except.error.injEq] at h; subst h; exact ih _ _ _ hs
+          | ok y => simp [hs] at h
+  cases hs : cerScan fuel false d with
+  | error e' => simp only [hs, Except.error.injEq] at h; subst h; exact key _ _ _ _ hs
+  | ok r =>
+    obtain ⟨segs, rest1⟩ := r
+    simp only [hs] at h
+    split at h
+    · simp at h
+    · simp only [Except.error.injEq] at h; exact Or.inl h.symm
+
+/-- the encodings of primitive segments are an item sequence with exactly these segments -/
+theorem items_cerEnc : ∀ (segs : List Bytes), (∀ s ∈ segs, s.length < 2 ^ 32) → Items (cerEnc segs) segs := by
+  intro segs
+  induction segs with
+  | nil => intro _; exact Items.nil
+  | cons s ss ih =>
+    intro h
+    have hsz := h s (by simp)
+    have hss := ih (fun x hx => h x (by simp [hx]))
+    rw [cerEnc_cons]
+    have hl := readLen_lenOctets true s.length (s ++ cerEnc ss) hsz
+    have hi : readIdent (cerSegEnc s ++ cerEnc ss) = some (⟨0, false, 4⟩, 1) := by simp [cerSegEnc, readIdent]
+    have hd : (cerSegEnc s ++ cerEnc ss).drop 1 = lenOctets s.length ++ (s ++ cerEnc ss) := by simp [cerSegEnc]
+    have hd2 : (cerSegEnc s ++ cerEnc ss).drop (1 + (lenOctets s.length).length) = s ++ cerEnc ss := by
+      rw [Nat.add_comm]
+      simp only [cerSegEnc, List.cons_append, List.drop_succ_cons, List.append_assoc]
+      exact List.drop_left
+    have hd3 : (cerSegEnc s ++ cerEnc ss).drop (1 + (lenOctets s.length).length + s.length) = cerEnc ss := by
+      rw [← List.drop_drop, hd2]; exact List.drop_left
+    have := Items.seg (cerSegEnc s ++ cerEnc ss) ⟨0, false, 4⟩ 1 s.length (lenOctets s.length).length ss
+      hi rfl rfl rfl (by rw [hd]; exact hl) (by rw [hd2]; simp) (by rw [hd3]; exact hss)
+    rw [hd2, List.take_left' rfl] at this
+    exact this
+
+theorem cerOK_le : ∀ (segs : List Bytes) (short : Bool), cerOK short segs = true → ∀ s ∈ segs, s.length ≤ 1000 := by
+  intro segs
+  induction segs with
+  | nil => intro _ _ s hs; simp at hs
+  | cons x xs ih =>
+    intro short h s hs
+    simp only [cerOK, Bool.and_eq_true, Bool.not_eq_true', decide_eq_true_eq] at h
+    simp only [List.mem_cons] at hs
+    rcases hs with rfl | hs
+    · exact h.1.2
+    · exact ih _ h.2 s hs
+
+/-- **C16 (CER, accepted values and their views).**  The value accepted from CER content octets
+    presents exactly the encoded segments: segment iterator, octets, length, emptiness. -/
+theorem cons_cer_views (segs : List Bytes) (hok : cerOK false segs = true) :
+    OS.segments (.cons (cerEnc segs)) = .ok segs ∧
+    OS.octets (.cons (cerEnc segs)) = .ok segs.flatten ∧
+    OS.len (.cons (cerEnc segs)) = .ok segs.flatten.length ∧
+    OS.isEmpty (.cons (cerEnc segs)) = .ok segs.flatten.isEmpty := by
+  have hi := items_cerEnc segs (fun s hs => by have := cerOK_le segs false hok s hs; omega)
+  obtain ⟨v1, v2, v3, v4, _⟩ := views_items _ _ hi
+  exact ⟨v1, v2, v3, v4⟩
+
+/-- the segment condition is the reference one: `Spec.osAccept .cer` on the tree of the value -/
+theorem cerOK_iff_spec (segs : List Bytes) (id pid : Ident) :
+    cerOK false segs = osAccept .cer (.cons id true (segs.map (Tree.prim pid))) := by
+  have key : ∀ (segs : List Bytes) (short : Bool), cerOK short segs =
+      ((!short || segs.isEmpty) &&
+        (segs.map (Tree.prim pid)).all (fun k => match k with | .prim _ c => decide (c.length ≤ 1000) | _ => false) &&
+        ((segs.map (Tree.prim pid)).dropLast.all fun k => match k with | .prim _ c => c.length == 1000 | _ => false)) := by
+    intro segs
+    induction segs with
+    | nil => intro short; cases short <;> rfl
+    | cons s ss ih =>
+      intro short
+      rw [cerOK, ih]
+      cases ss with
+      | nil => cases short <;> simp
+      | cons s2 ss2 =>
+        cases short
+        · by_cases h1 : s.length < 1000
+          · have : ¬ s.length = 1000 := by omega
+            simp [h1, this]
+          · by_cases h2 : s.length = 1000
+            · simp [h2]
+            · have : ¬ s.length ≤ 1000 := by omega
+              simp [this]
+        · simp
+  rw [key]
+  simp [osAccept]
+  rfl
+
+/-! ### the same against the reference grammar and `Spec.osAccept` -/
+
+abbrev pOS : Ident := ⟨0, false, 4⟩
+abbrev cOS : Ident := ⟨0, true, 4⟩
+
+theorem parseValue_cer_seg (f : Nat) (s tail : Bytes) (hsz : s.length < 2 ^ 32) :
+    parseValue .cer (f + 1) (cerSegEnc s ++ tail) = some (.prim pOS s, tail) := by
+  have hl := readLen_lenOctets false s.length (s ++ tail) hsz
+  have hi : readIdent (cerSegEnc s ++ tail) = some (pOS, 1) := by simp [cerSegEnc, readIdent]
+  have hd : (cerSegEnc s ++ tail).drop 1 = lenOctets s.length ++ (s ++ tail) := by simp [cerSegEnc]
+  have hd2 : (cerSegEnc s ++ tail).drop (1 + (lenOctets s.length).length) = s ++ tail := by
+    rw [Nat.add_comm]
+    simp only [cerSegEnc, List.cons_append, List.drop_succ_cons, List.append_assoc]
+    exact List.drop_left
+  have hb : M.cer.isBer = false := rfl
+  simp only [parseValue, hi, hd, hb, hl, hd2]
+  simp [isEocIdent]
+
+theorem parseUntilEoc_cerEnc : ∀ (segs : List Bytes) (f : Nat) (rest : Bytes),
+    (∀ s ∈ segs, s.length < 2 ^ 32) → segs.length < f →
+    parseUntilEoc .cer f (cerEnc segs ++ ([0, 0] ++ rest)) = some (segs.map (Tree.prim pOS), rest) := by
+  intro segs
+  induction segs with
+  | nil =>
+    intro f rest _ hf
+    cases f with
+    | zero => simp at hf
+    | succ f =>
+      have hi : readIdent (cerEnc [] ++ ([0, 0] ++ rest)) = some (⟨0, false, 0⟩, 1) := by simp [cerEnc, readIdent]
+      have hb : M.cer.isBer = false := rfl
+      simp only [parseUntilEoc, hi, hb]
+      simp [isEocIdent, cerEnc, readLen]
+  | cons s ss ih =>
+    intro f rest hsz hf
+    cases f with
+    | zero => simp at hf
+    | succ f =>
+      simp only [List.length_cons] at hf
+      cases f with
+      | zero => omega
+      | succ f' =>
+        have h1 := parseValue_cer_seg f' s (cerEnc ss ++ ([0, 0] ++ rest)) (hsz s (by simp))
+        have h2 := ih (f' + 1) rest (fun x hx => hsz x (by simp [hx])) (by omega)
+        have hi : readIdent (cerSegEnc s ++ (cerEnc ss ++ ([0, 0] ++ rest))) = some (pOS, 1) := by
+          simp [cerSegEnc, readIdent]
+        rw [cerEnc_cons, List.append_assoc]
+        rw [parseUntilEoc]
+        simp only [hi, h1, h2]
+        simp [isEocIdent]
+
+theorem eoc_inv (d : Bytes) (id : Ident) (k kl : Nat) (hr : readIdent d = some (id, k))
+    (he : isEocIdent id = true) (hc : id.constructed = false)
+    (hl : readLen false (d.drop k) = some (some 0, kl)) : d = [0, 0] ++ d.drop (k + kl) := by
+  cases d with
+  | nil => simp [readIdent] at hr
+  | cons b t =>
+    simp only [isEocIdent, Bool.and_eq_true, beq_iff_eq] at he
+    rcases readIdent_shape b t id k hr with ⟨_, hid, hk⟩ | hge
+    · subst hid; subst hk
+      simp only at he hc
+      have hbb := byte_lt_256 b
+      have hb0 : b.toNat = 0 := by
+        have : b.toNat / 32 % 2 ≠ 1 := by simpa using hc
+        omega
+      have hb : b = 0 := UInt8.toNat_inj.mp hb0
+      subst hb
+      simp only [List.drop_succ_cons, List.drop_zero] at hl
+      obtain ⟨t2, ht2, hkl⟩ := readLen_false_inv _ _ _ hl
+      have e : lenOctets 0 = [0] := by rfl
+      rw [e] at ht2 hkl
+      simp only [List.length_cons, List.length_nil] at hkl
+      subst hkl
+      rw [ht2]
+      simp
+    · omega
+
+theorem parse_cer_inv : ∀ (f : Nat) (d : Bytes) (ts : List Tree) (rest : Bytes),
+    parseUntilEoc .cer f d = some (ts, rest) →
+    (∀ t ∈ ts, ∃ id c, t = .prim id c ∧ id.cls = 0 ∧ id.num = 4 ∧ c.length ≤ 1000) →
+    ∃ segs, ts = segs.map (Tree.prim pOS) ∧ segs.length < f ∧ d = cerEnc segs ++ ([0, 0] ++ rest) := by
+  intro f
+  induction f with
+  | zero => intro d ts rest h; simp [parseUntilEoc] at h
+  | succ f ih =>
+    intro d ts rest h hk
+    simp only [parseUntilEoc] at h
+    have hb : M.cer.isBer = false := rfl
+    cases hr : readIdent d with
+    | none => simp [hr] at h
+    | some r =>
+      obtain ⟨id, k⟩ := r
+      simp only [hr, hb] at h
+      split at h
+      · rename_i he
+        split at h
+        · simp at h
+        · rename_i hc
+          cases hl : readLen false (d.drop k) with
+          | none => simp [hl] at h
+          | some r2 =>
+            obtain ⟨len?, kl⟩ := r2
+            simp only [hl] at h
+            split at h
+            · rename_i kl' heq
+              simp only [Option.some.injEq, Prod.mk.injEq] at heq h
+              obtain ⟨rfl, rfl⟩ := heq
+              obtain ⟨rfl, rfl⟩ := h
+              refine ⟨[], rfl, by simp, ?_⟩
+              simpa [cerEnc] using eoc_inv d id k kl hr he (by simpa using hc) hl
+            · simp at h
+      · cases hp : parseValue .cer f d with
+        | none => simp [hp] at h
+        | some r2 =>
+          obtain ⟨t, rest1⟩ := r2
+          simp only [hp] at h
+          cases hq : parseUntilEoc .cer f rest1 with
+          | none => simp [hq] at h
+          | some r3 =>
+            obtain ⟨ts', rest2⟩ := r3
+            simp only [hq, Option.some.injEq, Prod.mk.injEq] at h
+            obtain ⟨rfl, rfl⟩ := h
+            obtain ⟨segs', e1, e2, e3⟩ := ih rest1 ts' rest2 hq (fun x hx => hk x (by simp [hx]))
+            obtain ⟨tid, c, rfl, t0, t4, tlen⟩ := hk t (by simp)
+            -- the value read is the primitive segment `c`
+            have hseg : tid = pOS ∧ d = cerSegEnc c ++ rest1 := by
+              cases f with
+              | zero => simp [parseValue] at hp
+              | succ f' =>
+                simp only [parseValue, hr, hb] at hp
+                split at hp
+                · simp at hp
+                · cases hl : readLen false (d.drop k) with
+                  | none => simp [hl] at hp
+                  | some r4 =>
+                    obtain ⟨len?, kl⟩ := r4
+                    simp only [hl] at hp
+                    cases len? with
+                    | none =>
+                      simp only at hp
+                      split at hp
+                      · simp at hp
+                      · cases hx : parseUntilEoc M.cer f' (d.drop (k + kl)) <;> simp [hx] at hp
+                    | some n =>
+                      simp only at hp
+                      split at hp
+                      · simp at hp
+                      · rename_i hn
+                        split at hp
+                        · rename_i hcn
+                          simp only [Option.some.injEq, Prod.mk.injEq, Tree.prim.injEq] at hp
+                          obtain ⟨⟨rfl, rfl⟩, rfl⟩ := hp
+                          have hcn' : id.constructed = false := by simpa using hcn
+                          have hlen : ((d.drop (k + kl)).take n).length = n := by
+                            simp only [List.length_take, List.length_drop] at hn ⊢; omega
+                          rw [hlen] at tlen
+                          have hh : cerHead false d =
+                              .ok (some ((d.drop (k + kl)).take n, decide (n < 1000), d.drop (k + kl + n))) := by
+                            have hne : ¬ d = [] := by intro h0; rw [h0] at hr; simp [readIdent] at hr
+                            have hbad : ¬ (id.constructed = true ∨ n > 1000 ∨ false = true ∨ (d.drop (k + kl)).length < n) := by
+                              rintro (h | h | h | h)
+                              · rw [hcn'] at h; cases h
+                              · omega
+                              · cases h
+                              · exact hn h
+                            simp only [cerHead, hne, if_false, hr, t0, t4, and_self, if_true, hl, hbad]
+                          obtain ⟨_, _, _, i4⟩ := cerHead_inv _ _ _ _ _ hh
+                          rw [List.drop_drop]
+                          refine ⟨?_, i4⟩
+                          cases id with
+                          | mk a b c' =>
+                            simp only at t0 t4 hcn'
+                            subst t0; subst t4; subst hcn'; rfl
+                        · simp at hp
+            obtain ⟨rfl, hd⟩ := hseg
+            refine ⟨c :: segs', by simp [e1], by simp only [List.length_cons]; omega, ?_⟩
+            rw [hd, e3, cerEnc_cons, List.append_assoc]
+
+theorem osContent_prim_os (g : Nat) (c : Bytes) : osContent 4 g (.prim pOS c) = some c := by
+  cases g <;> rfl
+
+theorem flatMap_prim (g : Nat) (segs : List Bytes) :
+    (segs.map (Tree.prim pOS)).flatMap (osSegments g) = segs := by
+  induction segs with
+  | nil => rfl
+  | cons s ss ih => simp only [List.map_cons, List.flatMap_cons, osSegments_prim, ih]; rfl
+
+theorem filterMap_prim (g : Nat) (segs : List Bytes) :
+    (segs.map (Tree.prim pOS)).filterMap (osContent 4 g) = segs := by
+  induction segs with
+  | nil => rfl
+  | cons s ss ih => simp only [List.map_cons, List.filterMap_cons, osContent_prim_os, ih]
+
+theorem osAccept_cer_kids (id : Ident) (indef : Bool) (ts : List Tree)
+    (h : osAccept .cer (.cons id indef ts) = true) :
+    ∀ t ∈ ts, ∃ tid c, t = .prim tid c ∧ c.length ≤ 1000 := by
+  simp only [osAccept, Bool.and_eq_true, List.all_eq_true] at h
+  intro t ht
+  have := h.1.2 t ht
+  cases t with
+  | prim tid c => exact ⟨tid, c, rfl, by simpa using this⟩
+  | cons _ _ _ => simp at this
+
+/-- **C16 (acceptance, constructed form in CER) against the reference definitions.**  For the
+    content octets `d` of an indefinite-length constructed OCTET STRING in CER (the definite form is
+    rejected by the framework before the closure runs, C02), `from_content` followed by the
+    framework's exhaustion check succeeds exactly when the CER grammar reads `d` as values `ts`
+    followed by end-of-contents, `Spec.osAccept .cer` holds of the tree (primitive kids of at
+    most 1000 octets, all but the last of exactly 1000) and the tree is an OCTET STRING tree
+    (`Spec.osContent` is defined: every kid is universal 4).  The loop fuel and the grammar fuel
+    coincide (number of segments + 1).  Every view of the value then presents `osContent`. -/
+theorem cons_cer_accept_iff_spec (fuel : Nat) (d : Bytes) :
+    (∃ r, runG0 (fromContentChecked fuel (.cons cI)) (St d none) = .ok r) ↔
+      ∃ ts rest, parseUntilEoc .cer fuel d = some (ts, rest) ∧
+        osAccept .cer (.cons cOS true ts) = true ∧ (osContent 4 (fuel + 1) (.cons cOS true ts)).isSome := by
+  rw [cons_cer_accept_iff]
+  constructor
+  · rintro ⟨segs, rest, hok, hf, rfl⟩
+    have hsz : ∀ s ∈ segs, s.length < 2 ^ 32 := fun s hs => by
+      have := cerOK_le segs false hok s hs; omega
+    refine ⟨segs.map (Tree.prim pOS), rest, parseUntilEoc_cerEnc segs fuel rest hsz hf, ?_, ?_⟩
+    · rw [← cerOK_iff_spec]; exact hok
+    · rw [osContent_cons]
+      simp only [beq_self_eq_true, Bool.and_self, Bool.not_true, Bool.false_eq_true, if_false]
+      rw [foldl_accStep_all]
+      · rfl
+      · intro k hk
+        simp only [List.mem_map] at hk
+        obtain ⟨c, _, rfl⟩ := hk
+        rw [osContent_prim_os]; rfl
+  · rintro ⟨ts, rest, hp, hacc, hcont⟩
+    obtain ⟨g', hg, _, _, hk⟩ := osContent_cons_some (fuel + 1) cOS true ts hcont
+    have hg' : g' = fuel := by omega
+    subst hg'
+    have hall : ∀ t ∈ ts, (osContent 4 g' t).isSome := by simpa [osTrees, List.all_eq_true] using hk
+    have hkids : ∀ t ∈ ts, ∃ id c, t = .prim id c ∧ id.cls = 0 ∧ id.num = 4 ∧ c.length ≤ 1000 := by
+      intro t ht
+      obtain ⟨tid, c, rfl, hlen⟩ := osAccept_cer_kids _ _ _ hacc t ht
+      obtain ⟨h0, h4⟩ := osContent_prim_some g' tid c (hall _ ht)
+      exact ⟨tid, c, rfl, h0, h4, hlen⟩
+    obtain ⟨segs, e1, e2, e3⟩ := parse_cer_inv g' d ts rest hp hkids
+    refine ⟨segs, rest, ?_, e2, e3⟩
+    rw [cerOK_iff_spec segs cOS pOS, ← e1]; exact hacc
+
+/-- … and what the accepted value presents is the reference content of that tree -/
+theorem cons_cer_accept_content (fuel : Nat) (d : Bytes) (os : OS) (ct : Content) (g' : G0)
+    (h : runG0 (fromContentChecked fuel (.cons cI)) (St d none) = .ok ((os, ct), g')) :
+    ∃ ts rest x, parseUntilEoc .cer fuel d = some (ts, rest) ∧ g' = St rest none ∧
+      osContent 4 (fuel + 1) (.cons cOS true ts) = some x ∧
+      os.octets = .ok x ∧ os.len = .ok x.length ∧ os.segments = .ok (osSegments (fuel + 1) (.cons cOS true ts)) := by
+  obtain ⟨segs, rest, hok, hf, rfl, rfl, _, rfl⟩ := cons_cer_accept_inv fuel d os ct g' h
+  have hsz : ∀ s ∈ segs, s.length < 2 ^ 32 := fun s hs => by
+    have := cerOK_le segs false hok s hs; omega
+  obtain ⟨v1, v2, v3, _⟩ := cons_cer_views segs hok
+  have hseg : osSegments (fuel + 1) (.cons cOS true (segs.map (Tree.prim pOS))) = segs := by
+    exact flatMap_prim fuel segs
+  refine ⟨_, rest, segs.flatten, parseUntilEoc_cerEnc segs fuel rest hsz hf, rfl, ?_, v2, v3, by rw [hseg]; exact v1⟩
+  rw [osContent_cons]
+  simp only [beq_self_eq_true, Bool.and_self, Bool.not_true, Bool.false_eq_true, if_false]
+  rw [foldl_accStep_all]
+  · simp only [List.nil_append]
+    rw [filterMap_prim]
+  · intro k hk
+    simp only [List.mem_map] at hk
+    obtain ⟨c, _, rfl⟩ := hk
+    rw [osContent_prim_os]; rfl
+
 /-! ## non-vacuity -/
 
 /-- the content octets of `24 80 04 02 61 62 00 00` as the BER capture records them (the trailing
@@ -1332,5 +2539,18 @@ theorem reencode_ber_d12 :
       .ok [0x24, 0x06, 0x04, 0x02, 0x61, 0x62, 0x00, 0x00] ∧
     parseValue .ber 8 [0x24, 0x06, 0x04, 0x02, 0x61, 0x62, 0x00, 0x00] = none ∧
     OS.octets (.cons ex1) = .ok [0x61, 0x62] := ⟨by rfl, by rfl, by rfl⟩
+
+/-- CER, constructed: one segment, then the end-of-contents octets, then other data -/
+example : runG0 (fromContentChecked 5 (.cons cI)) (St [0x04, 0x02, 0x61, 0x62, 0x00, 0x00, 0xff] none) =
+    .ok ((.cons [0x04, 0x02, 0x61, 0x62], .cons cI), St [0xff] none) :=
+  cons_cer_accept 5 [[0x61, 0x62]] [0xff] (by decide) (by decide)
+/-- CER, constructed: a short segment followed by another one is rejected (the D11 witness shape),
+    and so is a constructed segment -/
+example : runG0 (fromContentChecked 5 (.cons cI)) (St [0x04, 0x01, 0x61, 0x04, 0x01, 0x62, 0x00, 0x00] none) =
+    .error .content := by rw [cons_cer_run]; rfl
+example : runG0 (fromContentChecked 5 (.cons cI)) (St [0x24, 0x80, 0x04, 0x01, 0x61, 0x00, 0x00, 0x00, 0x00] none) =
+    .error .content := by rw [cons_cer_run]; rfl
+example (a : Bytes) (h : a.length = 1000) : cerOK false [a, [1, 2]] = true := by simp [cerOK, h]
+example (a : Bytes) : cerOK false [[1, 2], a] = false := by simp [cerOK]
 
 end Bcder.Props.C16
